@@ -18,6 +18,9 @@ import (
 	"github.com/nyaruka/goflow/utils"
 )
 
+// max number of bytes to be saved to extra on a result
+const resultExtraMaxBytes = 10000
+
 var registeredTypes = map[string](func() flows.Router){}
 
 // registers a new type of router
@@ -190,6 +193,11 @@ func (r *baseRouter) routeVia(run flows.Run, step flows.Step, category flows.Cat
 		var extraJSON json.RawMessage
 		if extra != nil {
 			extraJSON, _ = jsonx.Marshal(extra)
+
+			// same limit as extra from a webhook response
+			if len(extraJSON) >= resultExtraMaxBytes {
+				extraJSON = nil
+			}
 		}
 		result := flows.NewResult(r.resultName, match, category.Name(), localizedCategory, step.NodeUUID(), operand, extraJSON, dates.Now())
 		prev, changed := run.SaveResult(result)
